@@ -251,6 +251,16 @@ fn text_for(ty: u8) -> BoxedStrategy<String> {
         ])
         .prop_map(|s: &str| s.to_string()),
         1 => "\\PC{0,8}",
+        // long malformed text, mostly multi-byte characters, with 0-3 ASCII bytes in front so that any byte offset
+        // (128, 256, 512, 1024, 4096 ...) falls inside a character for some of them
+        1 => (0usize..4, prop_oneof![40usize..140, 200usize..700, 900usize..2200], proptest::sample::select(vec!['\u{e9}', '\u{4e2d}', '\u{1F600}', '\u{2212}', '\u{660}']), any::<bool>())
+            .prop_map(|(pre, n, ch, digits)| {
+                let mut s = "x1-.e"[..pre.min(4)].to_string();
+                for i in 0..n {
+                    s.push(if digits && i % 7 == 3 { '7' } else { ch });
+                }
+                s
+            }),
     ]
     .boxed()
 }
